@@ -770,6 +770,8 @@ impl SimServer {
 const SUBS: &[&str] = &[
     "database", "update", "stored_playlist", "playlist", "player", "mixer", "output", "options", "partition", "sticker",
     "subscription", "message", "neighbor", "mount", "zzz_unknown", "Player",
+    // names the parser passes through and the client must carry unchanged: empty, blanks, a CR
+    "", "player ", " mixer", "options\r",
 ];
 
 fn cmd_spec(name: &str, args: &[String]) -> String {
@@ -907,7 +909,9 @@ pub fn gen_schedule(r: &mut Rng, g: &GenCfg, steps: usize, prop: &str, backpress
     let rt = runtime(sel_seed);
     rt.block_on(async {
         let pw = if g.password {
-            Some(if r.chance(2, 3) { "secret".to_string() } else { r.pick(&["wrong", "sec ret", ""]).to_string() })
+            // passwords are arguments like any other (C06): trailing blanks, tabs, no-break spaces and quotes
+            // must reach the server verbatim
+            Some(if r.chance(1, 2) { "secret".to_string() } else { r.pick(&["wrong", "sec ret", "", "secret ", "secret\t", " secret", "se\"cr'et \u{a0}", "pass\\word \u{3000}", " "]).to_string() })
         } else {
             None
         };
@@ -1208,13 +1212,17 @@ pub fn gen(cfg: &Cfg) -> Vec<String> {
         "C08" => (cfg.n.unwrap_or(1500 * scale), GenCfg { faults: true, password: false, art: true, typed: false, changes: true, bytewise: false, wfaults: false, drop_events: false }),
         "C13" => (cfg.n.unwrap_or(600 * scale), GenCfg { faults: false, password: false, art: false, typed: true, changes: true, bytewise: true, wfaults: false, drop_events: false }),
         "C17" => (cfg.n.unwrap_or(500 * scale), GenCfg { faults: false, password: false, art: true, typed: false, changes: true, bytewise: false, wfaults: false, drop_events: true }),
+        // C06: the password is an argument too (the only one that does not go through a typed command)
+        "C06" => (cfg.n.unwrap_or(150 * scale), GenCfg { faults: false, password: true, art: false, typed: false, changes: false, bytewise: false, wfaults: false, drop_events: false }),
+        // C07: command lists over a transport that takes a few bytes per write: the framing must survive
+        "C07" => (cfg.n.unwrap_or(250 * scale), GenCfg { faults: false, password: false, art: false, typed: true, changes: true, bytewise: false, wfaults: false, drop_events: false }),
         "C18" => (cfg.n.unwrap_or(600 * scale), GenCfg { faults: true, password: true, art: false, typed: false, changes: false, bytewise: true, wfaults: false, drop_events: false }),
         other => panic!("family loop does not serve property {other}"),
     };
     for i in 0..n {
         let steps = match cfg.prop.as_str() {
             "C04" => r.range(8, 50),
-            "C18" => r.range(2, 14),
+            "C18" | "C06" => r.range(2, 14),
             "C17" => r.range(10, 60),
             _ => {
                 if i % 9 == 0 {
